@@ -49,6 +49,10 @@ class LikeFault(Exception):
     """Ordinary exception raised by the user's likelihood (fault kind like.raise)."""
 
 
+class LikeInterrupt(KeyboardInterrupt):
+    """Ctrl-C arriving while the user's likelihood runs (fault kind like.interrupt): a BaseException, so `except Exception` does not see it."""
+
+
 class Monitor:
     """Base class; override what you need.  Monitors only read."""
 
@@ -177,6 +181,8 @@ def install_hooks():
             inc.like_fault = None
             if lf["kind"] == "like.raise":
                 raise LikeFault(f"user likelihood failed at batch {k}")
+            if lf["kind"] == "like.interrupt":
+                raise LikeInterrupt(f"interrupted at batch {k}")
             inc.world.fs.dead = True
             inc.world.fs.fired.append(dict(lf, idx=inc.world.fs.nsys, syscall="likelihood", window=None))
             raise SimCrash(lf["kind"], f"likelihood batch {k}")
